@@ -165,8 +165,8 @@ Print Assumptions Coherence_ipset_setstate.
 
 (* the hypothesis is needed: the Sets copy builds the networks with Span.net_of_tuple, which has no version check
    (its callers pass the version of a live object), the Order copy with the full constructor.  Real netaddr:
-   IPSet().__setstate__(((1, 32, 5),)) raises ValueError('5 is an invalid IP version!') — the Order copy is right. *)
-Theorem Coherence_ipset_setstate_invalid_version_differs : Order.ipset_setstate (map state3 [(1, 32, 5)]) = Raise ValueError /\
-  Sets.set_setstate [(1, 32, 5)] = Ok [{| nver := 5; nval := 1; nplen := 32 |}].
-Proof. exact coh_ipset_setstate_invalid_version_differs. Qed.
-Print Assumptions Coherence_ipset_setstate_invalid_version_differs.
+   IPSet().__setstate__(((1, 32, 5),)) raises ValueError('5 is an invalid IP version!') — both copies now agree (Model/Sets.v corrected). *)
+Theorem Coherence_ipset_setstate_invalid_version : Order.ipset_setstate (map state3 [(1, 32, 5)]) = Raise ValueError /\
+  Sets.set_setstate [(1, 32, 5)] = Raise ValueError.
+Proof. exact coh_ipset_setstate_invalid_version. Qed.
+Print Assumptions Coherence_ipset_setstate_invalid_version.
